@@ -1295,6 +1295,29 @@ func (x *sealedScn) runFlaky() {
 			x.roundTrip(sd, clear)
 		}
 	}
+	// ---- the key service's current key version moves on between Store and Load (it reports another key ID and
+	// still opens what it sealed before): the same wrapper returns what was stored
+	{
+		X := mk()
+		clear := proto.Clone(X)
+		if err := x.libStore(sd, X); err == nil {
+			if tok, ok := X.(*types.ServerLedActivationToken); ok {
+				clear.(*types.ServerLedActivationToken).CreationTimeMarshaled = tok.CreationTimeMarshaled
+			}
+			fw.KeyIDOverride = "key-version-" + hex.EncodeToString(world.RandBytes(3))
+			typ, id := sealedTypeOf(clear), sealedIDOf(clear)
+			got, lerr := sealedLibLoad(x.ctx, sd.inner, typ, id, nodeenrollment.WithStorageWrapper(fw))
+			switch {
+			case lerr != nil:
+				r.Violation("roundtrip-load-failed:after-key-version-change:"+typ, fmt.Sprintf("a %s record does not load with the wrapper it was stored with after that wrapper's reported key ID moved on (it still opens the sealed values): %v", typ, lerr), x.witness(sealedWitness{Side: sd.name, Record: typ + "/" + id, Detail: "KeyId() changed between Store and Load"}))
+			case !proto.Equal(got, clear):
+				r.Violation("roundtrip-mismatch:after-key-version-change:"+typ, fmt.Sprintf("a %s record loaded after the wrapper's reported key ID moved on differs from what was stored in fields %v", typ, sealedDiff(clear, got)), x.witness(sealedWitness{Side: sd.name, Record: typ + "/" + id}))
+			default:
+				r.Count("flaky:round_trip_equal_after_key_version_change:"+typ, 1)
+			}
+			fw.KeyIDOverride = ""
+		}
+	}
 	// ---- Store while the storage answers its first write with an error that calls itself temporary: whatever the
 	// library does about it (give up, try again), what it hands to storage is sealed (inspected like everything else)
 	{
